@@ -34,13 +34,14 @@ def norm(node_or_text, limit=140):
 
 
 class Instance:
-    __slots__ = ("rule", "key", "verdict", "file", "line", "func", "detail", "nontrivial", "path", "what")
+    __slots__ = ("rule", "key", "verdict", "file", "line", "func", "detail", "nontrivial", "path", "what", "digest")
 
     def __init__(self, rule, key, verdict, file, line, func, detail, nontrivial=False, path=None):
         self.rule, self.key, self.verdict = rule, key, verdict
         self.file, self.line, self.func = file, line, func
         self.detail, self.nontrivial, self.path = detail, nontrivial, path
         self.what = None
+        self.digest = None
 
     def as_dict(self):
         d = {"rule": self.rule, "key": self.key, "verdict": self.verdict,
@@ -81,6 +82,8 @@ class Ctx:
             line = node
         k = self.key(rule, file, func, construct)
         inst = Instance(rule, k, verdict, file, line, func, detail, nontrivial, path)
+        if verdict == VIOLATION:
+            inst.digest = construct_digest(node)
         self.instances.append(inst)
         return inst
 
@@ -113,8 +116,35 @@ def load_known():
         return json.load(f)["findings"]
 
 
+def construct_digest(node):
+    """Shape digest of the reported construct (a statement or expression; None for whole functions/classes and for
+    reports without a node): ast.dump without positions, with every Name renamed by order of first occurrence, so that
+    re-formatting and renaming locals keep the digest while any other edit of the construct changes it."""
+    import ast as _ast
+    import hashlib
+    if node is None or not isinstance(node, _ast.AST) or isinstance(node, (_ast.FunctionDef, _ast.AsyncFunctionDef, _ast.ClassDef, _ast.Module)):
+        return None
+    names = {}
+
+    class Canon(_ast.NodeTransformer):
+        def visit_Name(self, n):
+            return _ast.Name(id=names.setdefault(n.id, f"v{len(names)}"), ctx=_ast.Load())
+
+        def visit_arg(self, n):
+            return _ast.arg(arg=names.setdefault(n.arg, f"v{len(names)}"), annotation=None)
+    import copy
+    try:
+        canon = Canon().visit(copy.deepcopy(node))
+        text = _ast.dump(canon, annotate_fields=False, include_attributes=False)
+    except Exception:
+        return None
+    return hashlib.sha1(text.encode()).hexdigest()[:12]
+
+
 def apply_known(ctx, known):
-    """Turn listed violations into KNOWN-FINDING. Only status == 'known' entries suppress."""
+    """Turn listed violations into KNOWN-FINDING. Only status == 'known' entries suppress.  An entry that records the
+    `digest` of the construct it was triaged on suppresses only while that construct is unchanged: an edit inside a
+    construct with a recorded finding is a different violation and is reported."""
     used = []
     for inst in ctx.instances:
         if inst.verdict != VIOLATION:
@@ -122,6 +152,10 @@ def apply_known(ctx, known):
         for k in known:
             if k.get("status") == "known" and k["property"] == ctx.prop and k["rule"] == inst.rule \
                     and k["key"] == inst.key:
+                if k.get("digest") and inst.digest and k["digest"] != inst.digest:
+                    inst.detail = ("[the construct of a recorded finding has been edited since it was triaged - recorded digest "
+                                   f"{k['digest']}, now {inst.digest}] " + inst.detail)
+                    break
                 inst.verdict = KNOWN
                 inst.what = k["what"]
                 used.append(k)
